@@ -35,6 +35,46 @@ def run(pid, tier, seed, res, seeds_extra=None, only=None):
         dict(kind="exec", run_debug=False, target=None, exclude=[["id", "n1"]], root=None, in_hypothesis=True)]))
     for _ in range(ncases):
         cases.append(kgraph.gen_queries(rng, kgraph.gen_graph_case(rng, max_n=7 if tier == "quick" else 9), k=6))
+    n_exh = 0
+    if tier == "thorough" and only is None:
+        # every DAG shape on <= 3 nodes x every (R, X, T) with each of them None or any subset, ids as aliases
+        import itertools
+        from .sched_cases import all_small_shapes
+        for n_, edges_ in all_small_shapes(3):
+            subsets = [None] + [list(c_) for k_ in range(n_ + 1) for c_ in itertools.combinations(range(n_), k_)]
+            qs = []
+            for R in subsets:
+                for X in subsets:
+                    for T in subsets:
+                        qs.append(dict(kind="exec", run_debug=False, target=None if T is None else [["id", "n%d" % i] for i in T],
+                                       exclude=None if X is None else [["id", "n%d" % i] for i in X], root=None if R is None else [["id", "n%d" % i] for i in R], in_hypothesis=True))
+            for chunk in range(0, len(qs), 60):
+                cases.append(dict(kind="graph", n=n_, edges=edges_, prios=[rng.randint(-2, 3) for _ in range(n_)], debug=[], setup=[], tags={}, consts={}, queries=qs[chunk:chunk + 60]))
+                n_exh += len(qs[chunk:chunk + 60])
+        res.notes.append("exhaustive: all DAG shapes on <= 3 nodes x all (root, exclude, target) subset triples: %d queries" % n_exh)
+    # reconfiguration: priorities (and flags) changed through config_from_dict, several entries, the last one
+    # possibly touching no priority: the table must be recomputed from the new priorities
+    if only is None:
+        for c_ in list(cases[4:4 + (40 if tier == "quick" else 400)]):
+            c2_ = json.loads(json.dumps(c_))
+            ids_ = list(range(c2_["n"]))
+            rng.shuffle(ids_)
+            conf = {}
+            for j_, i_ in enumerate(ids_[:rng.randint(1, min(3, len(ids_)))]):
+                ent = {}
+                if rng.random() < 0.7:
+                    ent["priority"] = rng.randint(-3, 6)
+                if rng.random() < 0.5 or not ent:
+                    ent["is_sequential"] = rng.random() < 0.5
+                conf["n%d" % i_] = ent
+            # tags may alias several nodes: configure through ids only
+            c2_["reconfig"] = dict(nodes=conf)
+            c2_["tags"] = {}
+            for q_ in c2_["queries"]:
+                for key_ in ("target", "exclude", "root"):
+                    if q_[key_]:
+                        q_[key_] = [a_ for a_ in q_[key_] if a_[0] != "tag"] or None
+            cases.append(c2_)
     if only is not None:
         cases = list(only)
     items = []
@@ -49,6 +89,11 @@ def run(pid, tier, seed, res, seeds_extra=None, only=None):
             dist["build_error"] += 1
             impl.append(None)
             continue
+        if case.get("reconfig"):
+            try:
+                d.config_from_dict(case["reconfig"])
+            except BaseException as e:  # noqa: BLE001
+                res.hit("C07", "monitor", "config_from_dict(%s) raised %s: %s" % (case["reconfig"], type(e).__name__, str(e)[:100]), dict(engine="kgraph", case=case, kind="monitor"))
         tables = kgraph.impl_tables(d)
         qres = []
         for q in case["queries"]:
